@@ -637,7 +637,7 @@ func (c *fctx) call(x *ast.CallExpr) string {
 				c.errN++
 				msg, _ := c.fi.Pkg.constString(x.Args[0])
 				c.sites = append(c.sites, fmt.Sprintf("error site %d (line %d): %q", k, c.t.pr.line(x.Pos()), msg))
-				return fmt.Sprintf("(some (Go.Err.mk %d))", k)
+				return fmt.Sprintf("(some (Go.Err.mk %q %d))", c.fi.Qual(), k)
 			}
 			// method of strings.Builder
 			if sel, ok := ast.Unparen(x.Fun).(*ast.SelectorExpr); ok {
